@@ -2,6 +2,7 @@ package main
 
 import (
 	"fmt"
+	"go/constant"
 	"go/token"
 	"go/types"
 	"strings"
@@ -765,4 +766,111 @@ func ruleTryEndPop(c *Ctx, rule string) {
 	})
 	c.Check(rule, "VM.xOpThrow | end of a try statement without pending error or return", l.Pos(xt.Pos()), found, "the statement's handler is popped",
 		"the instruction that ends a try statement leaves the consumed handler on the frame when nothing is pending: later try statements of the frame are addressed one index off (break in a nested try runs the outer finally early; return inside try is lost when its finally block contains a try)")
+}
+
+// ---- C01/const-cache-float --------------------------------------------------------------------------------------
+// The compiler's constant cache is a Go map keyed by the constant's value, and
+// as map keys 0.0 and -0.0 are equal.  Wherever a Float can be looked up in or
+// stored into that cache, the sign of a zero has been examined first
+// (math.Signbit / Float64bits / Copysign on the value): otherwise the folded
+// literal -0.0 (the optimizer turns the unary minus into a literal) takes the
+// slot of 0.0 and the optimized script prints "0" where the unoptimized prints
+// "-0".
+func ruleConstCacheFloat(c *Ctx, rule string) {
+	l := c.L
+	_, fCache := l.structField(modPath, "Compiler", "constsCache")
+	floatT := l.NamedType(modPath, "Float")
+	if !c.Anchor(rule, "Compiler.constsCache / type Float", fCache >= 0 && floatT != nil) {
+		return
+	}
+	signAware := func(ins ssa.Instruction) bool {
+		cl, ok := ins.(*ssa.Call)
+		if !ok {
+			return false
+		}
+		f := cl.Call.StaticCallee()
+		return f != nil && f.Pkg != nil && f.Pkg.Pkg.Path() == "math" && (f.Name() == "Signbit" || f.Name() == "Float64bits" || f.Name() == "Copysign")
+	}
+	n := 0
+	for _, fn := range l.RepoFuncs(func(pp string) bool { return pp == modPath }) {
+		eachInstr(fn, func(ins ssa.Instruction) {
+			var key ssa.Value
+			var m ssa.Value
+			switch x := ins.(type) {
+			case *ssa.Lookup:
+				key, m = x.Index, x.X
+			case *ssa.MapUpdate:
+				key, m = x.Key, x.Map
+			default:
+				return
+			}
+			u, ok := m.(*ssa.UnOp)
+			if !ok {
+				return
+			}
+			if _, ok := isFieldAddrOf(u.X, modPath, "Compiler", fCache); !ok {
+				return
+			}
+			// may the key be a Float here?  it is an interface value: unless the
+			// guards exclude Float (a type switch arm without it), it may
+			mayFloat := true
+			if mi, ok := key.(*ssa.MakeInterface); ok {
+				mayFloat = types.Identical(mi.X.Type(), floatT)
+			}
+			for _, g := range guardEdges(ins.Block()) {
+				if ex, ok := g.If.Cond.(*ssa.Extract); ok && ex.Index == 1 {
+					if ta, ok := ex.Tuple.(*ssa.TypeAssert); ok && ta.CommaOk && ta.X == key && g.Truth && !types.Identical(ta.AssertedType, floatT) {
+						mayFloat = false // this arm is for another concrete type
+					}
+				}
+			}
+			if !mayFloat {
+				return
+			}
+			n++
+			_, ok2 := mustPassBefore(fn.Blocks[0].Instrs[0], signAware, func(x ssa.Instruction) bool { return x == ins })
+			if !ok2 {
+				// path-wise: every feasible path to the access has established
+				// "not a Float", "a Float other than zero", or has branched on the
+				// sign examination
+				if paths, ok := pathGuardSets(ins.Block()); ok && len(paths) > 0 {
+					all := true
+					for _, p := range paths {
+						one := false
+						for _, g := range p {
+							switch cnd := g.If.Cond.(type) {
+							case *ssa.Extract:
+								if ta, ok := cnd.Tuple.(*ssa.TypeAssert); ok && ta.CommaOk && cnd.Index == 1 && types.Identical(ta.AssertedType, floatT) && !g.Truth {
+									one = true
+								}
+							case *ssa.BinOp:
+								if (cnd.Op == token.EQL && !g.Truth) || (cnd.Op == token.NEQ && g.Truth) {
+									for _, pr := range [][2]ssa.Value{{cnd.X, cnd.Y}, {cnd.Y, cnd.X}} {
+										if k, ok := pr[1].(*ssa.Const); ok && k.Value != nil && types.Identical(pr[0].Type(), floatT) {
+											if fv, ok2 := constant.Float64Val(constant.ToFloat(k.Value)); ok2 && fv == 0 {
+												one = true
+											}
+										}
+									}
+								}
+							case *ssa.Call:
+								if signAware(cnd) {
+									one = true
+								}
+							}
+						}
+						if !one {
+							all = false
+						}
+					}
+					ok2 = all
+				}
+			}
+			c.Check(rule, fmt.Sprintf("%s | constsCache[%s]", fnName(fn), describe(key)), l.Pos(ins.Pos()), ok2, "the sign of a zero Float is examined on every path to the cache access",
+				"a Float constant reaches the value-keyed constant cache without its sign having been examined: 0.0 and -0.0 are one map key, so the literal the optimizer folds `-0.0` into shares the slot of 0.0 and the optimized script prints 0 where the unoptimized prints -0")
+		})
+	}
+	if n == 0 {
+		c.Ok(rule, "no Float reaches the constant cache", "-", "Float constants are not cached by value")
+	}
 }
